@@ -43,6 +43,11 @@ CLAIMS = {
         text="Kernel-checked theorems (coq/properties/C07.v): Policy.Assemble errs exactly for an unnamed default action, no groups, or a group with a defect (unknown name, duplicate, conditional+unconditional, argument index > 5, unknown operation, empty condition list), with the stated error class; every defect-free policy is accepted (the assembler cannot fail on generated code); accepted policies decide as written; GOARCHs without tables give unsupported-arch over the regenerated alias list. Tied to the code by comparing accept/error class/panic on valid policies and policies with one injected defect.",
         technique="Rocq proof (loop invariants of toSyscallsWithConditions, well-formed-jump invariant through the generators and relax) + correspondence on the accept/error projection + direct search against the property text",
         ref="DESIGN.md 6 (C07)"),
+    "C08": dict(
+        text="PARTIAL proof. Kernel-checked theorems (coq/properties/C08.v) over the kernel state model and the loader/sockFilter regenerated from seccomp_linux.go (per-run symbolic execution): the sock_fprog handed to seccomp(2) is (uint16 length, raw encoding) of the compiled program, field by field; a program over 4096 instructions is refused whatever its truncated 16-bit length (no proper prefix of a compiled program passes the verifier: prefix_rejected), so truncation can never install a different filter; after a nil load the installed program is the compiled one and returns decide on every event, on every thread with thread-sync. Tied to the real kernel by loading generated policies through the real LoadFilter in throw-away children, comparing the captured sock_fprog instruction for instruction with the model, and judging ~6000 raw probe syscalls (arbitrary 64-bit registers; errno / allow / log / trace / trap / kill_process; flags 0..3; with and without no_new_privs; other threads) against decide.",
+        technique="Rocq proof over the kernel model and regenerated loader skeletons + captured-program comparison + real-kernel probe syscalls judged against the extracted decide",
+        note="Partial: that Linux interprets classic BPF, the byte order of seccomp_data and the return words (errno, SIGSYS, allow) as run_raw says is validated on the host kernel 6.18 by experiment (about 6000 probes per quick run), not proved; kill_thread is not probed. Trusted: Coq kernel, translator (skeletons, constants), extraction and drivers, harness/kenforce.go, generators.",
+        ref="DESIGN.md 6 (C08)"),
     "C09": dict(
         text="PARTIAL proof. LoadFilter, Supported, SetNoNewPrivs, prctl and seccomp are REGENERATED from seccomp_linux.go as statement skeletons on every run and given a semantics over a kernel state model (per-thread filter stacks, no_new_privs, privileges; do_seccomp with the kernel's observable check order) by an interpreter in Coq; a per-run symbolic execution re-proves the loader's specification (load_spec) for the current source. Kernel-checked theorems (coq/properties/C09.v) over EVERY history of loads, probes, thread creation/exit and privilege drops: nil implies the new filter is on top of the calling thread's stack (every thread's with thread-sync) and is the compiled program; whenever the kernel leaves the state unchanged the result is an error (unknown flags, oversize, EACCES, rejected program, refused thread-sync returning a thread id); a failing Assemble has no effect; Supported changes nothing. Tied to the real code by replaying real load histories (child processes on the running kernel) step by step inside Coq and by a direct search on the observations.",
         technique="Rocq proof over a kernel state model with the loader regenerated from source (skeleton interpreter, per-run symbolic execution) + step-wise replay of real histories inside Coq + direct search on /proc observations",
@@ -72,6 +77,11 @@ CLAIMS = {
         technique="Rocq proof over regenerated tables (lookup lemmas, reflection for the tag table) + model-vs-implementation evaluation inside Coq on observed parser outputs + configuration round-trip differential",
         note="Trusted: Coq kernel, translator, harness. strings.ToLower is modelled for ASCII (non-ASCII inputs are judged against Go's simple case mapping in the search only); go-ucfg, yaml.v2 and encoding/json are third-party code exercised by round trips, not modelled.",
         ref="DESIGN.md 6 (C14)"),
+    "C15": dict(
+        text="PARTIAL proof. main and parsePolicy of cmd/sandbox are REGENERATED as statement skeletons on every run and interpreted over EVERY outcome oracle (command line, YAML load, unpack, LoadFilter, target run); a per-run proof shows the skeleton equals a reference behaviour, and kernel-checked theorems (coq/properties/C15.v) show: the target command is created and run only after the policy file was read, unpacked and the filter loaded, all successfully; any failure before that exits non-zero with no target effect; the filter passed to LoadFilter requests thread-sync and the command-line no_new_privs; composed with the loader and kernel models, the program on top of a cloned (exec'd) thread is the compiled one and decides as decide. Tied to the real code by running the built sandbox binary on invalid policy files of every kind (missing, empty, malformed, wrong types, unknown names/actions, duplicates, oversize, directory, unprivileged without no_new_privs) and on generated valid ones with a separate probe target whose marker file and per-probe errno are judged.",
+        technique="Rocq proof by exhaustive oracle analysis of the regenerated skeleton (reflection) + composition with the loader/kernel models + built-binary runs with a probe target",
+        note="Partial: the model has one process image plus clone; execve keeping the filter stack and no_new_privs is a kernel assumption (E1); go-ucfg / yaml and the flag package are oracle outcomes (a `names:` mapping is unpacked by go-ucfg into an empty list - a legal empty group - which is recorded, not judged); real fork/exec across two processes is observed by experiment. Trusted: Coq kernel, translator/skeleton.go, harness/probetarget, generators.",
+        ref="DESIGN.md 6 (C15)"),
     "C16": dict(
         text="Kernel-checked theorems (coq/properties/C16.v) over an executable model of disasm.go: for every text, architecture record and reader behaviour ExtractSyscalls returns a list or an error and never panics; it returns an error, never a list, when the reader fails after any prefix, the file cannot be opened or a line has 65536 bytes or more; the syscalls found after a function marker do not depend on the text in front of it; appending text at a line boundary keeps every syscall found before; every reported (Num, Name) is an entry of the table of the regenerated record passed in (x32 and all other records without a parser are refused). Tied to the code by record-exact comparison with disasm.ExtractSyscalls on generated files and by comparing the models of bufio.Scanner, regexp, ParseInt and Fields with the library.",
         technique="Rocq proof over a total Gallina model of the scanner and parser (loop decomposition lemma, checked slice operations for totality) + model/implementation correspondence + site-model oracle search",
